@@ -56,6 +56,23 @@ F4_Inlines(t) == CASE t = "I" -> { "A", "B", "" }
                    [] t = "U" -> { "A", "I" }
                    [] OTHER -> {}
 
+\* F13: mutations (C13): top-level fields, aliases, duplicates, nested selections, fragments on M
+F13_Leafs(t) == CASE t = "M" -> { Sel("", "a"), Sel("", "b"), Sel("k", "a") }
+                  [] t = "O" -> { Sel("", "x"), Sel("", "y") }
+                  [] OTHER -> {}
+F13_Comps(t) == CASE t = "M" -> { Sel("", "o"), Sel("", "l") }
+                  [] t = "O" -> { Sel("", "z") }
+                  [] OTHER -> {}
+FragsM == << [name |-> "F", on |-> "M"] >>
+Th(t, f) == [t |-> t, f |-> f, src |-> "*", o |-> [k |-> "thunk"]]
+OT_Thunks ==
+  << <<>>,
+     << Th("M", "a"), Th("M", "b"), Th("M", "o"), Th("M", "l"), Th("O", "x"), Th("O", "y"), Th("O", "z") >>,
+     << Th("M", "a"), Th("M", "o") >>,
+     << Th("M", "b"), Th("M", "l"), Th("O", "x") >>,
+     << Th("O", "x"), Th("O", "z") >>,
+     << Th("M", "a"), Th("M", "b"), Th("O", "y") >> >>
+
 \* F5: arguments (literal / variable / defaults), see also C05
 F5_Leafs(t) ==
   IF t # "Q" THEN {} ELSE
